@@ -230,7 +230,7 @@ Proof.
       rewrite He. reflexivity.
     + cbn [enc_param]. unfold is_required. cbn [pkind_of]. rewrite Hl. cbn [negb orb guard bind].
       unfold vget. rewrite Hl. rewrite (not_none_of_instance _ _ Hpt). cbn [negb guard bind opt_or0].
-      cbn [enc_dop]. cbn [valid_phys]. rewrite Hpt. cbn [guard bind p2i enc_dct std_apply_mask std_used_mask].
+      cbn [enc_dop]. cbn [valid_phys]. rewrite Hpt. cbn [guard bind p2i valid_int dct_bt]. rewrite Hbt. cbn [guard bind enc_dct std_apply_mask std_used_mask].
       rewrite He. rewrite ?(not_none_of_instance _ _ Hpt). reflexivity.
   - destruct Hend1 as (A & B & C & D).
     repeat split; cbn [set_bit e_bit e_cur e_msg e_used e_warn e_origin e_eop e_lkeys e_keypos e_req]; auto.
@@ -756,7 +756,7 @@ Section LoopRev.
           rewrite He1. reflexivity.
         - cbn [enc_param]. unfold is_required. cbn [pkind_of]. fold (fname x). rewrite Hl. cbn [negb orb guard bind].
           unfold vget. rewrite Hl. rewrite (not_none_of_instance _ _ Hpt). cbn [negb guard bind opt_or0].
-          cbn [enc_dop]. cbn [valid_phys]. rewrite Hpt. cbn [guard bind p2i enc_dct std_apply_mask std_used_mask].
+          cbn [enc_dop]. cbn [valid_phys]. rewrite Hpt. cbn [guard bind p2i valid_int dct_bt]. rewrite Hbt. cbn [guard bind enc_dct std_apply_mask std_used_mask].
           rewrite He1. rewrite ?(not_none_of_instance _ _ Hpt). reflexivity. }
       assert (Hend1' : at_end (set_bit s1 0)) by now apply at_end_set_bit.
       destruct (IH ws' (set_bit s1 0) (i + 1) Hend1' HF') as (s' & He2 & Hend2 & Hwarn2 & Hm2).
